@@ -342,8 +342,10 @@ def _call(e, cols, n):
         return elementwise(lambda c: Cell(FALSE, c.null, "b", c.dc, c.kf))
     if name == "is_not_null":
         return elementwise(lambda c: Cell(FALSE, znot(c.null), "b", c.dc, c.kf))
-    if name in ("is_nan", "is_infinite"):
-        return elementwise(lambda c: Cell(c.null, FALSE, "b", c.dc, c.kf))  # NaN / inf are outside the value model; null stays null
+    if name == "is_infinite":
+        return elementwise(lambda c: Cell(c.null, C.inf_formula(c), "b", c.dc, c.kf))  # FALSE unless the job runs in inf mode
+    if name == "is_nan":
+        return elementwise(lambda c: Cell(c.null, FALSE, "b", c.dc, c.kf))  # NaN is outside the value model; null stays null
     if name == "not_":
         return elementwise(lambda c: Cell(c.null, znot(pdshim._boolval(c)), "b", c.dc, c.kf))
     if name == "abs":
